@@ -1,0 +1,105 @@
+//go:build verif
+
+// Contracts for the deductive verifier in /verif (comment-only file; see /verif/DESIGN.md).
+// atomicval(x) is the current value of the sync/atomic variable x (sequential model: see evidence).
+
+package stats
+
+
+//@ func (*trafficCollector).collectTCPSession
+//@   modifies atomicval(tc.downlinkBytes), atomicval(tc.uplinkBytes), atomicval(tc.tcpSessions)
+//@   ensures atomicval(tc.downlinkBytes) == old(atomicval(tc.downlinkBytes)) + downlinkBytes
+//@   ensures atomicval(tc.uplinkBytes) == old(atomicval(tc.uplinkBytes)) + uplinkBytes
+//@   ensures atomicval(tc.tcpSessions) == old(atomicval(tc.tcpSessions)) + 1
+
+//@ func (*trafficCollector).collectUDPSessionDownlink
+//@   modifies atomicval(tc.downlinkPackets), atomicval(tc.downlinkBytes), atomicval(tc.udpSessions)
+//@   ensures atomicval(tc.downlinkPackets) == old(atomicval(tc.downlinkPackets)) + downlinkPackets
+//@   ensures atomicval(tc.downlinkBytes) == old(atomicval(tc.downlinkBytes)) + downlinkBytes
+//@   ensures atomicval(tc.udpSessions) == old(atomicval(tc.udpSessions)) + 1
+
+//@ func (*trafficCollector).collectUDPSessionUplink
+//@   modifies atomicval(tc.uplinkPackets), atomicval(tc.uplinkBytes)
+//@   ensures atomicval(tc.uplinkPackets) == old(atomicval(tc.uplinkPackets)) + uplinkPackets
+//@   ensures atomicval(tc.uplinkBytes) == old(atomicval(tc.uplinkBytes)) + uplinkBytes
+
+//@ func (*Traffic).Add
+//@   modifies t.DownlinkPackets, t.DownlinkBytes, t.UplinkPackets, t.UplinkBytes, t.TCPSessions, t.UDPSessions
+//@   ensures t.DownlinkPackets == old(t.DownlinkPackets) + u.DownlinkPackets && t.DownlinkBytes == old(t.DownlinkBytes) + u.DownlinkBytes
+//@   ensures t.UplinkPackets == old(t.UplinkPackets) + u.UplinkPackets && t.UplinkBytes == old(t.UplinkBytes) + u.UplinkBytes
+//@   ensures t.TCPSessions == old(t.TCPSessions) + u.TCPSessions && t.UDPSessions == old(t.UDPSessions) + u.UDPSessions
+
+//@ func (*trafficCollector).snapshot
+//@   modifies nothing
+//@   ensures result.DownlinkPackets == atomicval(tc.downlinkPackets) && result.DownlinkBytes == atomicval(tc.downlinkBytes)
+//@   ensures result.UplinkPackets == atomicval(tc.uplinkPackets) && result.UplinkBytes == atomicval(tc.uplinkBytes)
+//@   ensures result.TCPSessions == atomicval(tc.tcpSessions) && result.UDPSessions == atomicval(tc.udpSessions)
+
+// snapshot-and-reset returns exactly what it zeroes
+//@ func (*trafficCollector).snapshotAndReset
+//@   modifies atomicval(tc.downlinkPackets), atomicval(tc.downlinkBytes), atomicval(tc.uplinkPackets), atomicval(tc.uplinkBytes), atomicval(tc.tcpSessions), atomicval(tc.udpSessions)
+//@   ensures result.DownlinkPackets == old(atomicval(tc.downlinkPackets)) && result.DownlinkBytes == old(atomicval(tc.downlinkBytes))
+//@   ensures result.UplinkPackets == old(atomicval(tc.uplinkPackets)) && result.UplinkBytes == old(atomicval(tc.uplinkBytes))
+//@   ensures result.TCPSessions == old(atomicval(tc.tcpSessions)) && result.UDPSessions == old(atomicval(tc.udpSessions))
+//@   ensures atomicval(tc.downlinkPackets) == 0 && atomicval(tc.downlinkBytes) == 0 && atomicval(tc.uplinkPackets) == 0 && atomicval(tc.uplinkBytes) == 0 && atomicval(tc.tcpSessions) == 0 && atomicval(tc.udpSessions) == 0
+
+//@ func (*userCollector).snapshot
+//@   modifies nothing
+//@   ensures result.Name == username
+//@   ensures result.Traffic.DownlinkPackets == atomicval(uc.trafficCollector.downlinkPackets) && result.Traffic.DownlinkBytes == atomicval(uc.trafficCollector.downlinkBytes) && result.Traffic.UplinkPackets == atomicval(uc.trafficCollector.uplinkPackets) && result.Traffic.UplinkBytes == atomicval(uc.trafficCollector.uplinkBytes) && result.Traffic.TCPSessions == atomicval(uc.trafficCollector.tcpSessions) && result.Traffic.UDPSessions == atomicval(uc.trafficCollector.udpSessions)
+
+// Representation invariant of a server collector: the map exists; every entry is a separately allocated
+// collector (not the server collector itself, and distinct users have distinct collectors).
+//@ pure scWF(sc *serverCollector) bool = !isnil(sc.ucs) && (forall k string :: has(sc.ucs, k) ==> !isnil(sc.ucs[k]) && !sameobj(sc.ucs[k], sc)) && (forall j string, k string :: j != k && has(sc.ucs, j) && has(sc.ucs, k) ==> !sameobj(sc.ucs[j], sc.ucs[k]))
+
+// lazily created per-user collector: created once, every other user's collector untouched
+//@ func (*serverCollector).userCollector
+//@   requires scWF(sc)
+//@   ensures scWF(sc)
+//@   modifies sc.ucs[*]
+//@   ensures !isnil(result) && has(sc.ucs, username) && sc.ucs[username] == result
+//@   ensures old(has(sc.ucs, username)) && !isnil(old(sc.ucs[username])) ==> result == old(sc.ucs[username])
+//@   ensures !(old(has(sc.ucs, username)) && !isnil(old(sc.ucs[username]))) ==> fresh(result) && atomicval(result.trafficCollector.downlinkPackets) == 0 && atomicval(result.trafficCollector.downlinkBytes) == 0 && atomicval(result.trafficCollector.uplinkPackets) == 0 && atomicval(result.trafficCollector.uplinkBytes) == 0 && atomicval(result.trafficCollector.tcpSessions) == 0 && atomicval(result.trafficCollector.udpSessions) == 0
+//@   ensures forall k string :: k != username ==> has(sc.ucs, k) == old(has(sc.ucs, k)) && sc.ucs[k] == old(sc.ucs[k])
+
+// "" is the anonymous collector, any other name that user's
+//@ func (*serverCollector).trafficCollector
+//@   requires scWF(sc)
+//@   ensures scWF(sc)
+//@   modifies sc.ucs[*]
+//@   ensures username == "" ==> result == addr(sc.tc) && (forall k string :: has(sc.ucs, k) == old(has(sc.ucs, k)) && sc.ucs[k] == old(sc.ucs[k]))
+//@   ensures username != "" ==> has(sc.ucs, username) && !isnil(sc.ucs[username]) && result == addr(sc.ucs[username].trafficCollector)
+//@   ensures username != "" && old(has(sc.ucs, username)) && !isnil(old(sc.ucs[username])) ==> sc.ucs[username] == old(sc.ucs[username])
+//@   ensures username != "" && !(old(has(sc.ucs, username)) && !isnil(old(sc.ucs[username]))) ==> fresh(sc.ucs[username]) && atomicval(sc.ucs[username].trafficCollector.downlinkPackets) == 0 && atomicval(sc.ucs[username].trafficCollector.downlinkBytes) == 0 && atomicval(sc.ucs[username].trafficCollector.uplinkPackets) == 0 && atomicval(sc.ucs[username].trafficCollector.uplinkBytes) == 0 && atomicval(sc.ucs[username].trafficCollector.tcpSessions) == 0 && atomicval(sc.ucs[username].trafficCollector.udpSessions) == 0
+//@   ensures forall k string :: k != username ==> has(sc.ucs, k) == old(has(sc.ucs, k)) && sc.ucs[k] == old(sc.ucs[k])
+
+// Each Collect* adds its arguments to the named user's counters ("" = the anonymous collector) and to nothing else.
+//@ pure ucPrev(sc *serverCollector, name string) bool = has(sc.ucs, name) && !isnil(sc.ucs[name])
+
+//@ func (*serverCollector).CollectTCPSession
+//@   requires scWF(sc)
+//@   ensures scWF(sc)
+//@   ensures username == "" ==> atomicval(sc.tc.downlinkBytes) == old(atomicval(sc.tc.downlinkBytes)) + downlinkBytes && atomicval(sc.tc.uplinkBytes) == old(atomicval(sc.tc.uplinkBytes)) + uplinkBytes && atomicval(sc.tc.tcpSessions) == old(atomicval(sc.tc.tcpSessions)) + 1
+//@   ensures username != "" ==> has(sc.ucs, username) && !isnil(sc.ucs[username])
+//@   ensures username != "" && old(ucPrev(sc, username)) ==> sc.ucs[username] == old(sc.ucs[username]) && atomicval(sc.ucs[username].trafficCollector.downlinkBytes) == old(atomicval(sc.ucs[username].trafficCollector.downlinkBytes)) + downlinkBytes && atomicval(sc.ucs[username].trafficCollector.uplinkBytes) == old(atomicval(sc.ucs[username].trafficCollector.uplinkBytes)) + uplinkBytes && atomicval(sc.ucs[username].trafficCollector.tcpSessions) == old(atomicval(sc.ucs[username].trafficCollector.tcpSessions)) + 1
+//@   ensures username != "" && !old(ucPrev(sc, username)) ==> atomicval(sc.ucs[username].trafficCollector.downlinkBytes) == downlinkBytes && atomicval(sc.ucs[username].trafficCollector.uplinkBytes) == uplinkBytes && atomicval(sc.ucs[username].trafficCollector.tcpSessions) == 1
+//@   ensures username != "" ==> atomicval(sc.tc.downlinkBytes) == old(atomicval(sc.tc.downlinkBytes)) && atomicval(sc.tc.uplinkBytes) == old(atomicval(sc.tc.uplinkBytes)) && atomicval(sc.tc.tcpSessions) == old(atomicval(sc.tc.tcpSessions))
+//@   ensures forall k string :: k != username && old(ucPrev(sc, k)) ==> sc.ucs[k] == old(sc.ucs[k]) && atomicval(sc.ucs[k].trafficCollector.downlinkBytes) == old(atomicval(sc.ucs[k].trafficCollector.downlinkBytes)) && atomicval(sc.ucs[k].trafficCollector.uplinkBytes) == old(atomicval(sc.ucs[k].trafficCollector.uplinkBytes))
+
+//@ func (*serverCollector).CollectUDPSessionDownlink
+//@   requires scWF(sc)
+//@   ensures scWF(sc)
+//@   ensures username == "" ==> atomicval(sc.tc.downlinkPackets) == old(atomicval(sc.tc.downlinkPackets)) + downlinkPackets && atomicval(sc.tc.downlinkBytes) == old(atomicval(sc.tc.downlinkBytes)) + downlinkBytes && atomicval(sc.tc.udpSessions) == old(atomicval(sc.tc.udpSessions)) + 1
+//@   ensures username != "" && old(ucPrev(sc, username)) ==> sc.ucs[username] == old(sc.ucs[username]) && atomicval(sc.ucs[username].trafficCollector.downlinkPackets) == old(atomicval(sc.ucs[username].trafficCollector.downlinkPackets)) + downlinkPackets && atomicval(sc.ucs[username].trafficCollector.downlinkBytes) == old(atomicval(sc.ucs[username].trafficCollector.downlinkBytes)) + downlinkBytes
+//@   ensures username != "" ==> atomicval(sc.tc.downlinkBytes) == old(atomicval(sc.tc.downlinkBytes)) && atomicval(sc.tc.downlinkPackets) == old(atomicval(sc.tc.downlinkPackets))
+
+//@ func (*serverCollector).CollectUDPSessionUplink
+//@   requires scWF(sc)
+//@   ensures scWF(sc)
+//@   ensures username == "" ==> atomicval(sc.tc.uplinkPackets) == old(atomicval(sc.tc.uplinkPackets)) + uplinkPackets && atomicval(sc.tc.uplinkBytes) == old(atomicval(sc.tc.uplinkBytes)) + uplinkBytes
+//@   ensures username != "" && old(ucPrev(sc, username)) ==> sc.ucs[username] == old(sc.ucs[username]) && atomicval(sc.ucs[username].trafficCollector.uplinkPackets) == old(atomicval(sc.ucs[username].trafficCollector.uplinkPackets)) + uplinkPackets && atomicval(sc.ucs[username].trafficCollector.uplinkBytes) == old(atomicval(sc.ucs[username].trafficCollector.uplinkBytes)) + uplinkBytes
+//@   ensures username != "" ==> atomicval(sc.tc.uplinkBytes) == old(atomicval(sc.tc.uplinkBytes)) && atomicval(sc.tc.uplinkPackets) == old(atomicval(sc.tc.uplinkPackets))
+
+//@ func NewServerCollector
+//@   ensures !isnil(result) && !isnil(result.ucs) && fresh(result) && scWF(result)
+//@   ensures forall k string :: !has(result.ucs, k)
